@@ -261,7 +261,7 @@ def build_program(seed, avoid=()):
     cfg = luagen.Cfg(max_depth=2 + ch.below(2), max_stmts=2 + ch.below(5), budget=50 + ch.below(100), avoid=avoid)
     model, tags = luagen.gen_program(ch, cfg)
     toks, stmts = luagen.render(model, ch)
-    lay = luagen.layout(toks, ch, mode)
+    lay = luagen.layout(toks, ch, mode, allow_cr=True)
     config = ch.pick(CONFIGS)
     keep_body, keep = (b'', set())
     if config == 'keep_file':
@@ -304,6 +304,8 @@ def part_programs(ctx):
         src = lay.src
         if via != 'lib' and (b'#include' in src or b'\x00' in src):
             via = 'lib'
+        if via == 'luamin_png' and b'\r' in src:
+            via = 'lib'      # the .p8.png reader turns CR into a blank (documented normalisation): another program
         case = {'seed': bytes(seed), 'source': src, 'config': config, 'keep': keep_body, 'via': via}
         ranges = scoped_ranges(lay.kept)
         ref_in, _o, _m = run_case(src, config, keep_body, ranges, case, via, chunked)
